@@ -21,7 +21,7 @@ def run(ctx):
     exe = vlib.build_engine("xsched", "plain")
     scratch = vlib.scratch_dir("C08")
     env = vlib.scrub_env({"MALLOC_ARENA_MAX": "1"}, scratch=scratch)
-    deadline = ctx["deadline"] or (300 if tier == "quick" else 2400)
+    deadline = ctx["deadline"] or (600 if tier == "quick" else 2400)
     if tier == "quick":
         cfgs = [(s, 2, 3) for s in SCEN] + [(s, 3, 2) for s in SCEN]
     else:
